@@ -1,8 +1,8 @@
 """C03 -- the garbage collector never frees a reachable object.
 Proof (mark = closure, fuel bound, sweep, unconditional collect_safe; historical refutation of the
 pre-ad6fcd1 edge function) + heap-graph contract tie + GC-schedule differential (hx_gc).
-There is no known-finding class any more: every audit problem and every schedule difference is a
-VIOLATION."""
+No known-finding class is open (KF-C03-1/2/3 are repaired in /repo): every audit problem, schedule
+difference or process abort is a VIOLATION."""
 import glob, json, os, re
 import vlib
 
@@ -15,6 +15,8 @@ TRUSTED = [
     "nested function constants), verif_roots (a transcription of the root loop of VM::collect -- if collect drops a root the "
     "tie and the oracle see it, if both gain one nothing notices), verif_free_list, gc_audit callback, pending_fn (moot since "
     "9ba6d0e removed the safepoint it guarded; still read so that a reintroduced safepoint is reported with its cause)",
+    "hook VM::verif_frames (/repo 817b675): function and owning closure object of every active frame (the closure is found by "
+    "comparing the frame's raw upvalue pointer with the upvalue vectors of the live closure objects)",
     "root-set COMPLETENESS (interpreter locals, native argument vectors, raw-pointer caches) is not proved: it is explored "
     "by the schedule differential only (generated programs x 6 forced schedules vs. never collecting)",
     "edges_spec = every GcRef/pointer Value stored in an object as found by the audit traversal (Function: constants of the "
@@ -52,10 +54,11 @@ def parse(out):
         t = line.split("\t")
         if t[0] == "P" and len(t) == 4:
             progs[int(t[1])] = {"class": t[2], "source": unesc(t[3])}
-        elif t[0] == "R" and len(t) == 11:
+        elif t[0] == "R" and len(t) == 12:
             runs.setdefault(int(t[1]), {})[t[2]] = {
                 "class": t[3], "output": t[4], "value": t[5], "detail": t[6], "collections": int(t[7]),
-                "nested_losses": int(t[8]), "pending_seen": int(t[9]), "exposure": int(t[10])}
+                "nested_losses": int(t[8]), "pending_seen": int(t[9]), "exposure": int(t[10]),
+                "running_closure_losses": int(t[11])}
         elif t[0] == "X" and len(t) == 6:
             probs.append({"prog": int(t[1]), "sched": t[2], "collection": int(t[3]), "sig": t[4], "detail": t[5]})
         elif t[0] == "D" and len(t) == 7:
@@ -185,6 +188,8 @@ def run(ctx):
                     if r["collections"]:
                         ctx.broken.append("schedule 1:0 collected: the GC schedule hook no longer works")
                     continue
+                if r["running_closure_losses"]:
+                    stats["runs_with_running_closure_loss"] = stats.get("runs_with_running_closure_loss", 0) + 1
                 if r["collections"]:
                     stats["runs_with_collections"] += 1
                     u = stats["runs_with_collections_by_class"]
@@ -193,10 +198,11 @@ def run(ctx):
                 if same or r["class"] == "budget":
                     continue
                 stats["differing_runs"] += 1
+                sig = "gc-schedule-diff:" + r["class"]
                 what = (f"GC schedule {sched} changes the behaviour of a program: never-collect gives "
                         f"{base['class']} / {base['output'][:80]!r}, schedule gives {r['class']} / {r['output'][:80]!r} {r['detail'][:100]}")
-                ctx.violation("gc-schedule-diff:" + r["class"], what,
-                              {"source": progs[idx]["source"], "schedule": sched, "profile": prof, "never": base, "scheduled": r})
+                ctx.violation(sig, what, {"source": progs[idx]["source"], "schedule": sched, "profile": prof,
+                                          "never": base, "scheduled": r})
         # ---- heap-graph contract tie: the model's collect on the dumped heap = what the VM did
         cases, meta = [], []
         for d in dumps:
@@ -253,9 +259,14 @@ def run(ctx):
         "closures returned, stored in a Vec and called, two-level closures; half of these programs have no heap constant inside "
         "any function), mixed; every class nests containers (a Vec holding a Vec, an Array and strings; pushes through the "
         "alias); 4-17 random statements each; every program under schedules never(1:0), every safepoint(2:0), every k-th "
-        "(3:2,3:3,3:7), two pseudo-random (4:k); optimisation level 0; instruction budget 150000")
+        "(3:2,3:3,3:7), two pseudo-random (4:k); optimisation level 0; instruction budget 150000; sixth class selfrepl: 2-4 "
+        "self-replacing handlers per program (the running function/closure removes the last reference to itself from a global, "
+        "a Vec slot, an upvalue or a caller's local, then allocates 1-6 strings one or two frames deeper, then uses its own "
+        "constants/captures; plain functions and capturing closures; nested handlers three frames deep)")
     ctx.cov["rule"] = ("evaluations = collections audited by the direct oracle + program runs; distinct_nontrivial = distinct "
                        "(heap, roots) dumps evaluated by the Coq model + distinct programs. Oracle per collection: mark bits clear "
-                       "before/after, survivors byte-identical (kind, digest, references), every object reachable from the roots "
+                       "before/after, survivors byte-identical (kind, digest, references), every object reachable from the audit's own roots "
+                       "(hook verif_roots + function and closure object of EVERY active frame from hook verif_frames, none of them "
+                       "derived from what collect marked) "
                        "through any stored reference survives, every edge of a surviving reachable object lands on a live object of "
                        "the expected kind. Oracle per program: class/output/value identical under all schedules.")
